@@ -94,6 +94,31 @@ class Tag(object):
         return (self.tag, v)
 
 
+_SUBCLASSES = {}
+
+
+def seq_subclass(mode):
+    """A user's subclass of lena.core.Sequence with its own run(): an element with a run method
+    like any other (its stream transformation is its run, not that of its parts)."""
+    import lena.core
+    if mode not in _SUBCLASSES:
+        if mode == "rev":
+            class ReversedOutput(lena.core.Sequence):
+                def run(self, flow):
+                    return iter(list(super(ReversedOutput, self).run(flow))[::-1])
+            _SUBCLASSES[mode] = ReversedOutput
+        else:
+            class WithTerminator(lena.core.Sequence):
+                def run(self, flow):
+                    n = 0
+                    for v in super(WithTerminator, self).run(flow):
+                        n += 1
+                        yield v
+                    yield ("end-of-flow", n)
+            _SUBCLASSES[mode] = WithTerminator
+    return _SUBCLASSES[mode]
+
+
 def build(r):
     """Build a fresh element from recipe *r*."""
     import lena.core
@@ -129,6 +154,8 @@ def build(r):
         return lena.core.FillCompute(lena.flow.Count(r[1]))
     if k == "seq":
         return lena.core.Sequence(*[build(e) for e in r[1]])
+    if k == "seqsub":
+        return seq_subclass(r[1])(*[build(e) for e in r[2]])
     if k == "split":
         kw = {}
         if len(r) > 2:
